@@ -40,8 +40,19 @@ def gen_generator_case(rng, tier):
 
 
 def gen(rng, tier, quarantine=()):
-    if "no-generator-outermost" not in quarantine and rng.random() < 0.25:
+    r = rng.random()
+    if "no-generator-outermost" not in quarantine and r < 0.2:
         return gen_generator_case(rng, tier)
+    if "no-forced-total" not in quarantine and r < 0.45:
+        # a focused selector forced to total mode: one record per focus binding
+        sc = c03.gen(rng, tier, quarantine, total=False, inv="C07.records")
+        for op in sc["ops"]:
+            if op["op"] == "mk":
+                op["ptype"] = "total"
+                op["raw"] = True
+                for sel in op["sels"]:
+                    sel["mode"] = "total"
+        return sc
     return c03.gen(rng, tier, quarantine, total=True, inv="C07.records")
 
 
